@@ -208,11 +208,12 @@ def check_one_step(ctx, kind, m, subs, bnds, label, order=1, disjoint=True):
             return None
     nv = int(np.max(m.t)) + 1 if order == 2 else m.p.shape[1]
     nvr = int(np.max(r.t)) + 1 if order == 2 else r.p.shape[1]
-    if order == 1 and not r.is_valid():
+    unused = sorted(set(range(m.p.shape[1])) - set(int(v) for v in m.t.ravel())) if order == 1 else []
+    if order == 1 and not unused and not r.is_valid():
         ctx.fail(f'uniform-invalid:{cname}', 'refined mesh fails is_valid()', data)
     if order == 2 and not r.is_valid():      # is_valid supports quadratic meshes since N38
         ctx.fail(f'uniform-invalid:{cname}', 'refined second-order mesh fails is_valid()', data)
-    st = ex.Step(kind, m.p[:, :nv], m.t, r.p[:, :nvr], r.t, uniform=True, disjoint=disjoint)
+    st = ex.Step(kind, m.p[:, :nv], m.t, r.p[:, :nvr], r.t, uniform=True, disjoint=disjoint, unused_ok=unused)
     ctx.count(('step', kind, cname, m.p.tolist(), m.t.tolist(), sorted((k, v.tolist()) for k, v in tags_s.items()),
                sorted((k, v.tolist()) for k, v in tags_b.items())),
               nontrivial=m.t.shape[1] >= 2 and (any(len(v) for v in tags_s.values()) or any(len(v) for v in tags_b.values())))
@@ -349,6 +350,30 @@ def run_oracle(ctx):
                 if ex.input_problems(kind, g['p'], g['t']):
                     continue
                 oracle_case(ctx, kind, g, rng, 1 if kind in ('tet', 'hex') else 2, 'none', order=2)
+    # meshes whose point array has points that belong to no cell (appended directly, or made by the library: (m1 @ m2)[0]):
+    # every cell type, k <= 2, exact measure / children inside parents / tags as for any other mesh
+    for kind in gm.KINDS:
+        done = 0
+        while done < ctx.n(3, 10):
+            g = gm.GEN[kind](rng) if kind != 'hex' else gm.gen_hex(rng, nmax=3)
+            if ex.input_problems(kind, g['p'], g['t']) or g['t'].shape[1] > 8:
+                continue
+            m0 = gm.build(kind, g['p'], g['t'], g.get('sort_t'))
+            try:
+                mu, how = gm.with_unused_points(kind, m0, rng, 'direct' if done % 2 == 0 else 'matmul')
+            except Exception as e:
+                ctx.fail(f'matmul-exception:{type(m0).__name__}', f'm @ translated(m) raised {type(e).__name__}: {e}', case_data(kind, m0))
+                done += 1
+                continue
+            done += 1
+            ctx.hist('unused-points', f'{kind}:{how}')
+            nt, nf = mu.t.shape[1], mu.facets.shape[1]
+            subs = {'a': gm.random_tags(rng, nt)}
+            bnds = {'l': gm.random_tags(rng, nf)}
+            r = check_one_step(ctx, kind, mu, subs, bnds, f'unused-points:{how}/step0')
+            if r is not None and r.t.shape[1] * ex.NCHILD[kind] <= 400:
+                base = type(r)(r.p, r.t, **({'sort_t': r.sort_t} if kind == 'tri' else {}))
+                check_one_step(ctx, kind, base, {'a': r.subdomains['a']} if r.subdomains else {}, {}, f'unused-points:{how}/step1')
     # the documented small examples
     import skfem
     for cls in (skfem.MeshLine, skfem.MeshTri, skfem.MeshQuad, skfem.MeshTet, skfem.MeshHex):
@@ -439,8 +464,9 @@ def replay(ctx, data):
     ctx.log('replaying', data.get('key'))
     cls = gm.skfem_cls(kind, 1)
     kw = {'sort_t': inp['sort_t']} if kind == 'tri' else {}
-    m = cls(np.array(inp['p'], dtype=np.float64)[:, :int(np.max(inp['t'])) + 1], np.array(inp['t'], dtype=np.int32), **kw)
     order = inp.get('order', 1)
+    P = np.array(inp['p'], dtype=np.float64)
+    m = cls(P[:, :int(np.max(inp['t'])) + 1] if order == 2 else P, np.array(inp['t'], dtype=np.int32), validate=False, **kw)
     if order == 2:
         m = gm.skfem_cls(kind, 2).from_mesh(m)
     check_one_step(ctx, kind, m, inp.get('subdomains', {}), inp.get('boundaries', {}), 'replay', order=order)
